@@ -228,6 +228,15 @@ class PipeResult:
         self.errors = []
 
 
+def _big_stack():
+    # the extracted list functions are not tail recursive; multi-megabyte streams need a deep native stack
+    import resource
+    try:
+        resource.setrlimit(resource.RLIMIT_STACK, (4 << 30, resource.RLIM_INFINITY))
+    except (ValueError, OSError):
+        pass
+
+
 def run_pipeline(driver, cases, bs, tag="run", model_driver=None, harness_env=None, timeout=3000):
     """cases: list of (header, [op lines]).  Runs implementation and model."""
     res = PipeResult()
@@ -283,7 +292,8 @@ def run_pipeline(driver, cases, bs, tag="run", model_driver=None, harness_env=No
             args.append("--oracle-only")
         env2 = dict(os.environ)
         env2["MODELRUN_DIGESTS"] = pf + ".dig"
-        procs.append((ci * per, pf, subprocess.Popen(args, stdin=open(pf), stdout=subprocess.PIPE, stderr=subprocess.PIPE, text=True, env=env2)))
+        procs.append((ci * per, pf, subprocess.Popen(args, stdin=open(pf), stdout=subprocess.PIPE, stderr=subprocess.PIPE, text=True, env=env2,
+                                                     preexec_fn=_big_stack)))
     digests = {}
     for offset, pf, p in procs:
         try:
